@@ -153,8 +153,8 @@ theorem handleMset_refused (c : Cmd) (har : cfg.activeRedirection = false)
     (h : sameSlot (msetGuardKeys c) = false) : handleMset cfg cm backend c = refused := by
   simp [handleMset, har, h, refused]
 
-theorem handleMsetnx_refused (c : Cmd) (har : cfg.activeRedirection = false)
-    (h : sameSlot (msetGuardKeys c) = false) : handleMsetnx cfg cm backend c = refused := by
+theorem handleMsetnx_refused (rt : Option Nat) (c : Cmd) (har : cfg.activeRedirection = false)
+    (h : sameSlot (msetGuardKeys c) = false) : handleMsetnx cfg cm backend rt c = refused := by
   simp [handleMsetnx, har, h, refused]
 
 theorem handleMultiInt_refused (name : Bytes) (c : Cmd) (har : cfg.activeRedirection = false)
@@ -215,11 +215,14 @@ theorem handleMset_routed (c : Cmd) : ∀ d ∈ (handleMset cfg cm backend c).di
   repeat' split at hd
   all_goals first | exact (runSubs_routed hd).1 | simp at hd
 
-theorem handleMsetnx_routed (c : Cmd) : ∀ d ∈ (handleMsetnx cfg cm backend c).dispatched, Routed cfg cm none d := by
+theorem handleMsetnx_routed (rt : Option Nat) (c : Cmd) :
+    ∀ d ∈ (handleMsetnx cfg cm backend rt c).dispatched, Routed cfg cm rt d := by
   intro d hd
   simp only [handleMsetnx] at hd
   repeat' split at hd
-  all_goals first | exact (runSubs_routed hd).1 | simp at hd
+  all_goals first
+    | (simp only [List.mem_map] at hd; obtain ⟨x, _, rfl⟩ := hd; exact sendOne_routed _ _ _ _)
+    | simp at hd
 
 theorem handleMultiInt_routed (name : Bytes) (c : Cmd) :
     ∀ d ∈ (handleMultiInt cfg cm backend name c).dispatched, Routed cfg cm none d := by
@@ -254,7 +257,7 @@ theorem handleData_routed (c : Cmd) :
   repeat' split at hd
   · exact handleMget_routed cfg cm backend c d hd
   · exact handleMset_routed cfg cm backend c d hd
-  · exact handleMsetnx_routed cfg cm backend c d hd
+  · exact handleMsetnx_routed cfg cm backend none c d hd
   · exact handleMultiInt_routed cfg cm backend _ c d hd
   · exact handleBlocking_routed cfg cm backend _ c d hd
   · exact handleEval_routed cfg cm backend none c d hd
